@@ -152,6 +152,145 @@ pub struct BatchOutcome {
     pub exit_code: i32,
 }
 
+/// What one run contributes to a batch, in a form that can cross a process boundary.
+#[derive(Clone, Debug, Serialize, Deserialize)]
+pub struct Record {
+    pub index: usize,
+    pub error: Option<String>,
+    pub io_signature: u64,
+    pub nontrivial: bool,
+    pub executions: u64,
+    pub counters: BTreeMap<String, u64>,
+    pub stats: serde_json::Value,
+    pub violations: Vec<(ViolationSig, String)>,
+    /// only kept for violating runs
+    pub scenario: Option<Scenario>,
+    /// only kept for sample candidates
+    pub sample: Option<serde_json::Value>,
+}
+
+fn to_record(prop: &dyn Property, index: usize, result: Result<RunReport, String>, want_sample: bool) -> Record {
+    match result {
+        Err(err) => Record {
+            index,
+            error: Some(err),
+            io_signature: 0,
+            nontrivial: false,
+            executions: 0,
+            counters: BTreeMap::new(),
+            stats: serde_json::Value::Null,
+            violations: Vec::new(),
+            scenario: None,
+            sample: None,
+        },
+        Ok(report) => {
+            let sample = if want_sample && (report.nontrivial || index < 2) {
+                Some(prop.sample(&report.scenario))
+            } else {
+                None
+            };
+            let violating = !report.violations.is_empty();
+            Record {
+                index,
+                error: None,
+                io_signature: report.io_signature,
+                nontrivial: report.nontrivial,
+                executions: report.executions,
+                counters: report.counters,
+                stats: report.stats,
+                violations: report
+                    .violations
+                    .into_iter()
+                    .map(|v| (v.sig, v.message))
+                    .collect(),
+                scenario: if violating { Some(report.scenario) } else { None },
+                sample,
+            }
+        }
+    }
+}
+
+/// Run the indices `k, k + shards, k + 2*shards, ...` of a batch in this process and
+/// write one JSON record per line. Used by the multi-process driver: thread creation in
+/// one address space serialises on the kernel's mmap lock, separate processes do not.
+pub fn run_shard(prop: &dyn Property, tier: &str, seed: u64, total: usize, k: usize, shards: usize, out: &Path) -> i32 {
+    let mut file = match fs::File::create(out) {
+        Ok(file) => std::io::BufWriter::new(file),
+        Err(err) => {
+            out_line(&format!("HARNESS-ERROR: cannot create {}: {}", out.display(), err));
+            return 2;
+        }
+    };
+    let mut samples_left = 3;
+    let mut index = k;
+    while index < total {
+        let result = prop.run(seed, index, tier);
+        let record = to_record(prop, index, result, samples_left > 0);
+        if record.sample.is_some() {
+            samples_left -= 1;
+        }
+        if serde_json::to_writer(&mut file, &record).is_err() || writeln!(file).is_err() {
+            return 2;
+        }
+        index += shards;
+    }
+    if file.flush().is_err() {
+        return 2;
+    }
+    0
+}
+
+fn run_shards(prop: &dyn Property, tier: &str, seed: u64, total: usize, shards: usize) -> Result<Vec<Record>, String> {
+    let exe = std::env::current_exe().map_err(|e| format!("current_exe: {}", e))?;
+    let dir = PathBuf::from(format!("/dev/shm/dvsim-batch-{}", std::process::id()));
+    let _ = fs::remove_dir_all(&dir);
+    fs::create_dir_all(&dir).map_err(|e| format!("mkdir {}: {}", dir.display(), e))?;
+    let mut children = Vec::new();
+    for k in 0..shards {
+        let out = dir.join(format!("shard-{}.jsonl", k));
+        let child = std::process::Command::new(&exe)
+            .arg("shard")
+            .arg(prop.id())
+            .arg(tier)
+            .arg(total.to_string())
+            .arg(k.to_string())
+            .arg(shards.to_string())
+            .arg(&out)
+            .env("VERIF_SEED", seed.to_string())
+            .stdin(std::process::Stdio::null())
+            .stdout(std::process::Stdio::null())
+            .stderr(std::process::Stdio::null())
+            .spawn()
+            .map_err(|e| format!("spawn shard: {}", e))?;
+        children.push((k, out, child));
+    }
+    let mut records: Vec<Record> = Vec::with_capacity(total);
+    let mut failure: Option<String> = None;
+    for (k, out, mut child) in children {
+        let status = child.wait().map_err(|e| format!("wait shard {}: {}", k, e))?;
+        if !status.success() {
+            failure = Some(format!("shard {} exited with {:?}", k, status.code()));
+        }
+        if let Ok(text) = fs::read_to_string(&out) {
+            for line in text.lines() {
+                match serde_json::from_str::<Record>(line) {
+                    Ok(record) => records.push(record),
+                    Err(err) => failure = Some(format!("shard {}: bad record: {}", k, err)),
+                }
+            }
+        }
+    }
+    let _ = fs::remove_dir_all(&dir);
+    if let Some(failure) = failure {
+        return Err(failure);
+    }
+    records.sort_by_key(|r| r.index);
+    if records.len() != total || records.iter().enumerate().any(|(i, r)| r.index != i) {
+        return Err(format!("shards returned {} records for {} runs", records.len(), total));
+    }
+    Ok(records)
+}
+
 pub fn run_batch(prop: &dyn Property, tier: &str, seed: u64) -> BatchOutcome {
     let started = Instant::now();
     let total = std::env::var("VERIF_RUNS")
@@ -178,27 +317,41 @@ pub fn run_batch(prop: &dyn Property, tier: &str, seed: u64) -> BatchOutcome {
         out_line(&format!("HARNESS-ERROR: {}", err));
         return BatchOutcome { exit_code: 2 };
     }
-    let next = AtomicUsize::new(0);
-    let results: Mutex<Vec<Option<Result<RunReport, String>>>> =
-        Mutex::new((0..total).map(|_| None).collect());
-    std::thread::scope(|scope| {
-        for _ in 0..workers {
-            scope.spawn(|| loop {
-                let index = next.fetch_add(1, Ordering::Relaxed);
-                if index >= total {
-                    break;
-                }
-                let report = prop.run(seed, index, tier);
-                results.lock().unwrap()[index] = Some(report);
-            });
+    let procs: usize = std::env::var("VERIF_PROCS")
+        .ok()
+        .and_then(|v| v.parse().ok())
+        .unwrap_or(workers);
+    let records: Vec<Record> = if procs > 1 && total >= 64 {
+        match run_shards(prop, tier, seed, total, procs) {
+            Ok(records) => records,
+            Err(err) => {
+                out_line(&format!("HARNESS-ERROR: {}", err));
+                return BatchOutcome { exit_code: 2 };
+            }
         }
-    });
-    let results: Vec<Result<RunReport, String>> = results
-        .into_inner()
-        .unwrap()
-        .into_iter()
-        .map(|r| r.expect("every index was run"))
-        .collect();
+    } else {
+        let next = AtomicUsize::new(0);
+        let results: Mutex<Vec<Option<Record>>> = Mutex::new((0..total).map(|_| None).collect());
+        std::thread::scope(|scope| {
+            for _ in 0..workers {
+                scope.spawn(|| loop {
+                    let index = next.fetch_add(1, Ordering::Relaxed);
+                    if index >= total {
+                        break;
+                    }
+                    let report = prop.run(seed, index, tier);
+                    let record = to_record(prop, index, report, true);
+                    results.lock().unwrap()[index] = Some(record);
+                });
+            }
+        });
+        results
+            .into_inner()
+            .unwrap()
+            .into_iter()
+            .map(|r| r.expect("every index was run"))
+            .collect()
+    };
 
     // ---- merge in index order
     let mut harness_errors: Vec<String> = Vec::new();
@@ -210,10 +363,11 @@ pub fn run_batch(prop: &dyn Property, tier: &str, seed: u64) -> BatchOutcome {
     let mut first_by_sig: BTreeMap<ViolationSig, (usize, Scenario, Violation, usize)> =
         BTreeMap::new();
     let mut violating_runs = 0usize;
-    for (index, result) in results.into_iter().enumerate() {
-        match result {
-            Err(err) => harness_errors.push(format!("run {}: {}", index, err)),
-            Ok(report) => {
+    for (index, record) in records.into_iter().enumerate() {
+        match record.error.clone() {
+            Some(err) => harness_errors.push(format!("run {}: {}", index, err)),
+            None => {
+                let report = record;
                 executions += report.executions;
                 signatures.insert(report.io_signature);
                 if report.nontrivial {
@@ -222,21 +376,29 @@ pub fn run_batch(prop: &dyn Property, tier: &str, seed: u64) -> BatchOutcome {
                 for (k, v) in report.counters {
                     *counters.entry(k).or_insert(0) += v;
                 }
-                if samples.len() < 3 && (report.nontrivial || index < 2) {
-                    samples.push(json!({
-                        "run_index": index,
-                        "scenario": prop.sample(&report.scenario),
-                        "stats": report.stats,
-                    }));
+                if samples.len() < 3 {
+                    if let Some(sample) = report.sample {
+                        samples.push(json!({
+                            "run_index": index,
+                            "scenario": sample,
+                            "stats": report.stats,
+                        }));
+                    }
                 }
                 if !report.violations.is_empty() {
                     violating_runs += 1;
                 }
-                for violation in report.violations {
+                let scenario = report.scenario;
+                for (sig, message) in report.violations {
+                    let violation = Violation { sig, message };
                     let entry = first_by_sig.entry(violation.sig.clone());
                     match entry {
                         std::collections::btree_map::Entry::Vacant(slot) => {
-                            slot.insert((index, report.scenario.clone(), violation, 1));
+                            let scenario = match scenario.clone() {
+                                Some(scenario) => scenario,
+                                None => continue,
+                            };
+                            slot.insert((index, scenario, violation, 1));
                         }
                         std::collections::btree_map::Entry::Occupied(mut slot) => {
                             slot.get_mut().3 += 1;
